@@ -8,6 +8,7 @@ import Qryn.Gen.Inserts
 import Qryn.Gen.ErrorHandler
 import Qryn.Gen.BatcherLocks
 import Qryn.Gen.Promise
+import Qryn.Gen.PostChains
 /-! # C01 — a push is acknowledged only after ClickHouse accepted all of its rows
 
 Property theorems only. Model: `Qryn.Ingest.Batcher` — `InsertServiceV2` as a state machine whose steps are
@@ -546,6 +547,38 @@ example :
   decide
 
 end promise
+
+
+/-! ## who writes the status (`Gen.PostChains`: every ResponseWriter call of `writer/controller`, every `Build(...)`) -/
+section writers
+open Qryn.Ingest.ErrorHandler
+
+/-- **status_written_by_post_step_or_error_handler** (decided on the regenerated facts). net/http keeps the FIRST
+    status a handler writes. In `writer/controller` a ResponseWriter is written to only inside `writeErrorResponse`
+    and inside post-request steps (`withOkStatusAndBody`, `withOkStatusAndJSONBody`, the function literals given to
+    `withPostRequest`) — no pre-request step and no parser touches it, so nothing can shadow `ErrorHandler`'s status;
+    `PusherCtx.Do` runs the pre-request steps, then `DoParse`, then the post-request steps, returning the first
+    error; and every handler constructor (all 16 `Build(...)`) has exactly ONE post-request step, which writes a 2xx
+    status — after `doParse` returned nil. With `answer_total`: the status a client reads is the route's 2xx only if
+    every `doPush` returned nil, and otherwise what `ErrorHandler` decides. -/
+theorem status_written_by_post_step_or_error_handler :
+    Gen.PostChains.writeSites.all (fun s =>
+      ["writeErrorResponse", "post:withPostRequest", "post:withOkStatusAndBody", "post:withOkStatusAndJSONBody"].contains s.1) = true ∧
+    Gen.PostChains.pusherDo = ["preRequestsUntilError", "doParse", "returnOnError", "postRequestsUntilError", "returnNil"] ∧
+    Gen.PostChains.handlers.all (fun h => match h.2 with
+      | [(_, c)] => decide (200 ≤ c) && decide (c < 300)
+      | _ => false) = true ∧
+    (Gen.PostChains.handlers.lookup "PushStreamV2") = some [("withOkStatusAndBody", 204)] := by
+  decide
+
+/-- the ok status of every route is a valid `WriteHeader` argument and reads as success -/
+theorem route_ok_status_is_success (c : Nat) (h : 200 ≤ c ∧ c < 300) : answerOf c = .status c ∧ isSuccess (answerOf c) = true := by
+  have : 100 ≤ c ∧ c ≤ 999 := ⟨by omega, by omega⟩
+  refine ⟨by simp [answerOf, this], ?_⟩
+  simp only [answerOf, this, and_self, if_true, isSuccess, observed, decide_eq_true_eq]
+  omega
+
+end writers
 
 /-! ## non-vacuity -/
 
